@@ -12,6 +12,7 @@ package shell_operator
 // snapshots present iff the binding includes snapshots, with exactly the documented keys.
 
 import (
+	"k8s.io/apimachinery/pkg/apis/meta/v1/unstructured"
 	"bytes"
 	"context"
 	"encoding/json"
@@ -46,7 +47,7 @@ func (o c09opts) String() string {
 func c09config(o c09opts) string {
 	s := "configVersion: v1\nonStartup: 1\nkubernetes:\n- name: kb\n  kind: ConfigMap\n  namespace: {nameSelector: {matchNames: [n1]}}\n"
 	if o.Jq {
-		s += "  jqFilter: \"{p: .data.v}\"\n"
+		s += "  jqFilter: \"{p: .data.v, f: (.metadata.managedFields | length)}\"\n"
 	}
 	if !o.KeepFull {
 		s += "  keepFullObjectsInMemory: false\n"
@@ -73,6 +74,16 @@ func c09config(o c09opts) string {
 	return s
 }
 
+// c09obj: a ConfigMap as a real API server delivers it, with metadata.managedFields (the
+// filter's projection reaches into them: filterResult is the jq result for that very object).
+func c09obj(ns, name string, ver int) *unstructured.Unstructured {
+	o := cmObj(ns, name, ver)
+	md := o.Object["metadata"].(map[string]any)
+	md["managedFields"] = []any{map[string]any{"manager": "kubectl", "operation": "Update", "apiVersion": "v1", "fieldsType": "FieldsV1",
+		"fieldsV1": map[string]any{"f:data": map[string]any{"f:v": map[string]any{}}}}}
+	return o
+}
+
 func keysOf(m map[string]any) []string {
 	var ks []string
 	for k := range m {
@@ -94,7 +105,8 @@ func c09checkItem(o c09opts, item map[string]any, where string) string {
 	}
 	if o.Jq && o.KeepFull {
 		data, _ := obj.(map[string]any)["data"].(map[string]any)
-		want := map[string]any{"p": data["v"]}
+		mf, _, _ := unstructured.NestedSlice(obj.(map[string]any), "metadata", "managedFields")
+		want := map[string]any{"f": len(mf), "p": data["v"]}
 		a, _ := json.Marshal(fr)
 		b, _ := json.Marshal(want)
 		if string(a) != string(b) {
@@ -103,7 +115,7 @@ func c09checkItem(o c09opts, item map[string]any, where string) string {
 	}
 	if o.Jq && !o.KeepFull {
 		m, ok := fr.(map[string]any)
-		if !ok || m["p"] == nil {
+		if !ok || m["p"] == nil || fmt.Sprint(m["f"]) != "1" {
 			return fmt.Sprintf("%s: filterResult %v is not the jq result", where, fr)
 		}
 	}
@@ -335,7 +347,7 @@ func c09run(o c09opts) (sig, what string, seen map[string]int, panics []string) 
 		ctx := context.Background()
 		dyn := fx.op.KubeClient.Dynamic()
 		for _, ns := range []string{"n1", "n2"} {
-			if _, err := dyn.Resource(cmGVR).Namespace(ns).Create(ctx, cmObj(ns, "a", 0), metav1.CreateOptions{}); err != nil {
+			if _, err := dyn.Resource(cmGVR).Namespace(ns).Create(ctx, c09obj(ns, "a", 0), metav1.CreateOptions{}); err != nil {
 				panic(err)
 			}
 		}
@@ -403,19 +415,19 @@ func c09run(o c09opts) (sig, what string, seen map[string]int, panics []string) 
 			vrt.WaitFor("settle", 10*time.Minute, func() bool { return finished() > before && quiet() && len(fx.op.KubeEventsManager.Ch()) == 0 })
 		}
 		step(func() { // Added
-			ob := cmObj("n1", "b", 1)
+			ob := c09obj("n1", "b", 1)
 			_, _ = dyn.Resource(cmGVR).Namespace("n1").Create(ctx, ob, metav1.CreateOptions{})
 			hub.Notify(cmGVR, "add", nil, ob)
 		})
 		step(func() { // Modified
 			old, _ := dyn.Resource(cmGVR).Namespace("n1").Get(ctx, "a", metav1.GetOptions{})
-			ob := cmObj("n1", "a", 2)
+			ob := c09obj("n1", "a", 2)
 			_, _ = dyn.Resource(cmGVR).Namespace("n1").Update(ctx, ob, metav1.UpdateOptions{})
 			hub.Notify(cmGVR, "update", old, ob)
 		})
 		step(func() { // Deleted: the notification carries the object's final state, which nobody
 			// has seen before (an API server sends it like that when the last finalizer goes)
-			final := cmObj("n1", "a", 3)
+			final := c09obj("n1", "a", 3)
 			_ = dyn.Resource(cmGVR).Namespace("n1").Delete(ctx, "a", metav1.DeleteOptions{})
 			hub.Notify(cmGVR, "delete", nil, final)
 		})
